@@ -50,7 +50,7 @@ type arities struct {
 // the common prefix of its operands (about p*2^p steps: Compare = Eqv, then Less both ways, each
 // of which recurses into the Compare of the tail; measured 7 ms at p=14, ~0.6 s at p=20). The
 // quick tier therefore decides positions 1..12 only; the thorough tier decides all 21.
-func arityInst[T any](head string, n int, o fp.Ord[T], mk func(c []any) T, split func(any) []any, open, sep, close string, kids ...*node) *inst[T] {
+func arityInst[T any](head string, n int, o func() fp.Ord[T], mk func(c []any) T, split func(any) []any, open, sep, close string, kids ...*node) *inst[T] {
 	var pats [][]int
 	build := func(def int, set ...int) any {
 		c := make([]any, n)
@@ -93,6 +93,23 @@ func arityInst[T any](head string, n int, o fp.Ord[T], mk func(c []any) T, split
 		return p
 	}
 	nd.pickRepresentatives()
+	// history family: fresh operands (all components at their 1st, 2nd, 3rd operand) and the value z
+	nd.hv = func() []any {
+		hvs := make([][]any, n)
+		for j := range hvs {
+			hvs[j] = kids[j].hv()
+		}
+		var out []any
+		for i := 0; i < 4; i++ {
+			c := make([]any, n)
+			for j := range c {
+				c[j] = hvs[j][i]
+			}
+			out = append(out, mk(c))
+		}
+		return out
+	}
+	nd.mut = prodMut(kids, split)
 	return finish(nd, o)
 }
 
@@ -214,6 +231,58 @@ func lawScenario(r *mc.Registry, name string, nodes []*node) {
 	sc.SplitDepth = 2
 }
 
+// historyScenario: every call/write sequence of depth histDepth on one long-lived instance.
+func historyScenario(r *mc.Registry, nodes []*node) (mutableNodes int) {
+	for _, n := range nodes {
+		n.histAlphabet()
+		if n.mutable {
+			mutableNodes++
+		}
+	}
+	sc := r.Seq("history", func(x *mc.X) {
+		n := nodes[x.Choose(len(nodes), "instance")]
+		ops := n.histAlphabet()
+		seq := make([]int, histDepth)
+		writes, calls := 0, 0
+		for d := range seq {
+			seq[d] = x.Choose(len(ops), "step")
+			if ops[seq[d]].kind == "mut" {
+				writes++
+			} else {
+				calls++
+			}
+		}
+		x.Tag("history: " + n.name)
+		law, msg, trace := n.history(seq)
+		for _, t := range trace {
+			x.Logf("%s", t)
+		}
+		if law != "" {
+			cu := n.histCulprit()
+			via := ""
+			if cu != n {
+				via = fmt.Sprintf(" (attributed to the component instance ord.%s, which violates %q in the history family on its own)", cu.name, cu.histcheck())
+			}
+			x.Fail("ord."+cu.head+"/"+law, "%s%s", msg, via)
+		}
+		x.Observe(n.name, strings.Join(trace, ";"))
+		if writes > 0 && calls > 0 {
+			x.NonTrivial()
+			x.Tag("history: sequences with a write into a referent between calls")
+		}
+	})
+	sc.SplitDepth = 2
+	return
+}
+
+func isDerived(n *node) bool {
+	switch n.head {
+	case "New", "FromCompare", "as.Ord", "Reversed", "ThenComparing":
+		return true
+	}
+	return false
+}
+
 func orOK(s string) string {
 	if s == "" {
 		return "ok"
@@ -310,10 +379,11 @@ func sortScenario(r *mc.Registry, maxLen int) {
 			alphabet = append(alphabet, as.Tuple2(k, p))
 		}
 	}
-	cs, os := containers(), sortOrds()
+	cs := containers()
+	nOrds := len(sortOrds())
 	sc := r.Seq("sort", func(x *mc.X) {
 		c := cs[x.Choose(len(cs), "container")]
-		o := os[x.Choose(len(os), "ord")]
+		o := sortOrds()[x.Choose(nOrds, "ord")]                       // the Ord instances are constructed inside the execution
 		op := mc.Pick(x, "operation", []string{"Sort", "Min", "Max"}) // one per execution: a defect in one cannot hide the others
 		n := x.Choose(maxLen+1, "length")
 		in := make(fp.Seq[el], n)
@@ -401,7 +471,7 @@ func sortScenario(r *mc.Registry, maxLen int) {
 
 func main() {
 	mc.Main("C10", func(r *mc.Registry) {
-		r.Rule = "grammar/arity: execution = (Ord instance expression, a, b, c) over the whole value domain of the instance's type (all triples; the arity blocks take c from 3 values and a, b from all values: base, alternative representation, all-different, and differs-at-position-k-only for every k <= 12 in the quick tier and every k in the thorough tier, where pairs sharing a prefix longer than 14 get a reduced check: Less both ways and Compare against the lexicographic demand); each execution calls Less, Eqv, Compare, LessEq, Min, Max of the library's instance and checks trichotomy, transitivity, consistency and the constructor's structural demand; non-trivial = three different domain elements; distinct outcome = (instance, order pattern of the triple). sort: execution = (container, Ord, Sort|Min|Max, input sequence) for ALL sequences up to the length bound over 3 keys x 2 payloads; Sort must return a permutation ordered by the reference comparison, Min/Max any least/greatest element or None for empty; non-trivial = the input has an inversion"
+		r.Rule = "history: execution = (Ord instance expression, sequence of histDepth steps) for EVERY sequence over the alphabet {Compare of each ordered pair of three operands, and for operands with a mutable referent a write of new contents in place (operands 0 and 2; contents y and a value z not between x and y, so one write can flip a pair)} on ONE long-lived constructed instance; each call must equal what a freshly constructed instance answers for the current values; all library instances are constructed anew inside every execution. grammar/arity: execution = (Ord instance expression, a, b, c) over the whole value domain of the instance's type (all triples; the arity blocks take c from 3 values and a, b from all values: base, alternative representation, all-different, and differs-at-position-k-only for every k <= 12 in the quick tier and every k in the thorough tier, where pairs sharing a prefix longer than 14 get a reduced check: Less both ways and Compare against the lexicographic demand); each execution calls Less, Eqv, Compare, LessEq, Min, Max of the library's instance and checks trichotomy, transitivity, consistency and the constructor's structural demand; non-trivial = three different domain elements; distinct outcome = (instance, order pattern of the triple). sort: execution = (container, Ord, Sort|Min|Max, input sequence) for ALL sequences up to the length bound over 3 keys x 2 payloads; Sort must return a permutation ordered by the reference comparison, Min/Max any least/greatest element or None for empty; non-trivial = the input has an inversion"
 		r.Assumptions = []string{
 			"NaN is excluded from the float domains",
 			"which of None/Some and nil/non-nil sorts first is not fixed by the property: only that they differ, and the order laws, are demanded",
@@ -430,6 +500,24 @@ func main() {
 			maxLen = 6
 		}
 		sortScenario(r, maxLen)
+		if r.Thorough() {
+			histDepth = 4
+		}
+		// history family: the grammar instances (derived instances of the depth-0 and depth-1
+		// expressions included) and the arity blocks
+		var histNodes []*node
+		for _, n := range append(append([]*node{}, grammarNodes...), arityNodes...) {
+			if n.hv == nil || n.mkO == nil {
+				continue
+			}
+			// quick tier: the derived instances (New, Reversed, ...) of the depth-2 expressions
+			// are left to the thorough tier
+			if !r.Thorough() && isDerived(n) && n.depth > 2 {
+				continue
+			}
+			histNodes = append(histNodes, n)
+		}
+		mutableNodes := historyScenario(r, histNodes)
 
 		heads := map[string]int{}
 		for _, n := range append(append([]*node{}, grammarNodes...), arityNodes...) {
@@ -442,19 +530,22 @@ func main() {
 			heads[h]++
 		}
 		r.Extra["bounds"] = map[string]any{
-			"instance_expressions":           len(grammarNodes) + len(arityNodes),
-			"nesting_depth":                  2,
-			"domain_cap_per_type":            domCap,
-			"domain_cap_sequence_types":      domCap + 2,
-			"sequence_domains":               "nil, empty, views base[:2], base, base[:1] (same start) and base[1:] of one array, an independent copy of base[:2], three independent values",
-			"tuple_arities":                  len(tup),
-			"arity_deciding_positions":       maxDecide,
-			"hcons_chain_lengths":            len(hc),
-			"instances_per_head_constructor": heads,
-			"sort_max_length":                maxLen,
-			"sort_alphabet":                  "keys {0,1,2} x payloads {a,b}",
-			"sort_containers":                []string{"seq", "iterator", "list (list.FromSeq)", "list (lazy, list.Collect)"},
-			"sort_ords":                      5,
+			"instance_expressions":                     len(grammarNodes) + len(arityNodes),
+			"nesting_depth":                            2,
+			"history_depth":                            histDepth,
+			"history_instances":                        len(histNodes),
+			"history_instances_with_mutable_referents": mutableNodes,
+			"domain_cap_per_type":                      domCap,
+			"domain_cap_sequence_types":                domCap + 2,
+			"sequence_domains":                         "nil, empty, views base[:2], base, base[:1] (same start) and base[1:] of one array, an independent copy of base[:2], three independent values",
+			"tuple_arities":                            len(tup),
+			"arity_deciding_positions":                 maxDecide,
+			"hcons_chain_lengths":                      len(hc),
+			"instances_per_head_constructor":           heads,
+			"sort_max_length":                          maxLen,
+			"sort_alphabet":                            "keys {0,1,2} x payloads {a,b}",
+			"sort_containers":                          []string{"seq", "iterator", "list (list.FromSeq)", "list (lazy, list.Collect)"},
+			"sort_ords":                                5,
 		}
 		r.Extra["uncovered"] = []string{
 			"NaN (excluded)",
